@@ -287,7 +287,7 @@ def explore_chains(ctx, yaml, yatiml):
 STRUCTURAL_SRC = '''
 import yatiml
 from collections import OrderedDict
-from typing import Any, Dict, List, Optional
+from typing import Any, Dict, List, Optional, Union
 
 class _Eq:
     def __eq__(self, o): return type(o) is type(self) and vars(o) == vars(self)
@@ -328,6 +328,19 @@ class Part(_Eq):
         self.spare = spare
         self.label = label
         self._yatiml_extra = _yatiml_extra if _yatiml_extra is not None else OrderedDict()
+    @classmethod
+    def _yatiml_sweeten(cls, node: yatiml.Node) -> None:
+        node.remove_attributes_with_default_values(cls)
+
+class Knob(_Eq):
+    # defaults of one type in positions that also take strings: a string that *spells* the default is
+    # not the default
+    def __init__(self, level: Union[int, str] = 5, tag: Optional[str] = None,
+                 ratio: Union[float, str] = 1.5, flag: Union[bool, str] = True) -> None:
+        self.level = level
+        self.tag = tag
+        self.ratio = ratio
+        self.flag = flag
     @classmethod
     def _yatiml_sweeten(cls, node: yatiml.Node) -> None:
         node.remove_attributes_with_default_values(cls)
@@ -382,12 +395,15 @@ def explore_structural(ctx, yaml, yatiml):
                                 SWEETEN='seq_attribute_to_map', SAVORIZE='map_attribute_to_seq')
     ns = {}
     exec(src, ns)
-    dumps = yatiml.dumps_function(ns['Box'], ns['Part'])
-    vals = [ns['Box'](w, h) for w in (1, 2, 3) for h in (1, 2, 3)] + \
+    dumps = yatiml.dumps_function(ns['Box'], ns['Part'], ns['Knob'])
+    vals = [ns['Knob'](lv, tg, rt, fl) for lv, tg, rt, fl in
+            [(5, None, 1.5, True), ('5', None, 1.5, True), (5, 'None', 1.5, True), (5, None, '1.5', True),
+             (5, None, 1.5, 'True'), (5, 'null', 1.5, 'true'), ('5', 'None', '1.5', 'True'), (6, '', 2.5, False),
+             (5, '~', 1.5, True), ('05', None, '1.50', 'yes')]] + [ns['Box'](w, h) for w in (1, 2, 3) for h in (1, 2, 3)] + \
         [ns['Box'](2, 3, OrderedDict(note=1))] + \
         [ns['Part'](c, sp, lb) for c in (0, 5) for sp in (5, 0) for lb in ('x', 'y', '5')]
     for v in vals:
-        load = yatiml.load_function(type(v), ns['Box'], ns['Part'])
+        load = yatiml.load_function(type(v), ns['Box'], ns['Part'], ns['Knob'])
         try:
             text = dumps(v)
             back = load(text)
